@@ -902,9 +902,8 @@ func (e *Engine) poolPut(p *value, x value) {
 		e.ghost.pools[p] = g
 	}
 	if pv, ok := ifacePtr(x); ok {
-		if e.ghost.released[pv] {
-			e.ghostViolation("pooled object released twice (double Put)")
-		}
+		// a double Put is not trapped here: the pool then holds the object twice, which the harnesses
+		// observe (natively too) by draining the pool and comparing identities
 		e.ghost.released[pv] = true
 		delete(e.ghost.live, pv)
 	}
